@@ -2,7 +2,7 @@
    Only statements + `exact`; the proofs are in CQueues/LfqReclaimProofs.v, CQueues/LfqReclaimTail.v, CQueues/DqMicroProofs.v. *)
 From Coq Require Import List NArith Bool Arith Permutation Sorted.
 From QV Require Import CQueues.Lfq CQueues.LfqProofs CQueues.Hazard CQueues.LfqReclaim CQueues.LfqReclaimTail CQueues.LfqReclaimProofs.
-From QV Require CQueues.Dq CQueues.DqMicro CQueues.DqMicroProofs.
+From QV Require CQueues.Dq CQueues.DqMicro CQueues.DqMicroProofs CQueues.HazardExt CQueues.HazardProofs.
 Import ListNotations.
 Local Open Scope N_scope.
 
@@ -92,6 +92,32 @@ Theorem lfqr_empty_uaf_refuted :
 Proof. exact LfqReclaimProofs.lfqr_empty_uaf_refuted. Qed.
 Print Assumptions lfqr_empty_uaf_refuted.
 
+(* qlfqueue_empty with node re-use: the C15 clause holds (same statement as lfq_empty_sound), linearizability does not *)
+Theorem lfqr_empty_sound : forall fmax progs sched,
+  let c := rrun (rinit fmax progs) sched in
+  forall t hd tl nx g c', rpc_of c t = RmChk hd tl nx g -> rstep c t = Some (c', Some (LInt 1)) ->
+    (g <= length (rg_deq c))%nat.
+Proof. exact LfqReclaimProofs.lfqr_empty_sound. Qed.
+Print Assumptions lfqr_empty_sound.
+
+Theorem lfqr_empty_never_empty_refuted :
+  exists fmax progs before call,
+    (exists th, nth_error (r_thr (rrun (rinit fmax progs) before)) 1 = Some th /\ rt_pc th = RIdle /\ rt_ops th = [LEmp]) /\
+    (exists th, nth_error (r_thr (rrun (rinit fmax progs) (before ++ call))) 1 = Some th /\ rt_out th = [(LEmp, LInt 1)]) /\
+    forall n, let c := rrun (rinit fmax progs) (before ++ firstn n call) in (length (rg_deq c) < length (rg_enq c))%nat.
+Proof. exact LfqReclaimProofs.lfqr_empty_never_empty_refuted. Qed.
+Print Assumptions lfqr_empty_never_empty_refuted.
+
+(* ---- hazardous_scan and the hazard slots of NON-worker threads (hzptr_list path): they are never consulted *)
+Theorem scan_x_ignores_external : forall slots me ext fl, HazardExt.scan_x slots me ext fl = scan slots me fl.
+Proof. exact HazardExt.scan_x_ignores_external. Qed.
+Print Assumptions scan_x_ignores_external.
+
+Theorem scan_x_frees_externally_protected : forall slots me ext fl kept freed p,
+  HazardExt.scan_x slots me ext fl = Some (kept, freed) -> In p (HazardProofs.upto0 fl) -> ~ In p (collect slots me) -> In p freed.
+Proof. exact HazardExt.scan_x_frees_externally_protected. Qed.
+Print Assumptions scan_x_frees_externally_protected.
+
 (* ---- qdqueue micro-step machine (DqMicro.v): every schedule, every configuration, ARBITRARY initial hint fields *)
 Section DqM.
 Import CQueues.Dq CQueues.DqMicro CQueues.DqMicroProofs.
@@ -152,4 +178,41 @@ Theorem dqm_push_scan_in_bounds : forall ns alls nbrs progs sched k,
   In k (dm_tasks s) -> forall n, k_pc k <> PCrash (S n).
 Proof. exact DqMicroProofs.dqm_push_scan_in_bounds. Qed.
 Print Assumptions dqm_push_scan_in_bounds.
+Theorem dqm_gateway_mutex : forall ns alls nbrs hn progs sched,
+  progs_ok ns progs -> nbrs_ok ns nbrs ->
+  let s := dm_run (dm_init ns alls nbrs hn progs) sched in
+  (forall h t, in_crit s t h -> q_lock (getq s h) = Some t) /\
+  (forall h t, q_lock (getq s h) = Some t -> in_crit s t h \/ k_pc (task_of s t) = PCrash 1) /\
+  (forall h t1 t2, in_crit s t1 h -> in_crit s t2 h -> t1 = t2) /\
+  (forall t h1 h2, in_crit s t h1 -> in_crit s t h2 -> h1 = h2) /\
+  (forall t h, in_crit s t h -> (h < ns)%nat).
+Proof. exact DqMicroProofs.dqm_gateway_mutex. Qed.
+Print Assumptions dqm_gateway_mutex.
+
+Theorem dqm_crit_step_by_holder : forall ns alls nbrs hn progs sched t,
+  progs_ok ns progs -> nbrs_ok ns nbrs ->
+  let s := dm_run (dm_init ns alls nbrs hn progs) sched in
+  (forall h i g c, k_pc (task_of s t) = PPushCrit h i g c -> q_lock (getq s h) = Some t) /\
+  (k_pc (task_of s t) = PPopCrit -> q_lock (getq s (k_me (task_of s t))) = Some t).
+Proof. exact DqMicroProofs.dqm_crit_step_by_holder. Qed.
+Print Assumptions dqm_crit_step_by_holder.
+
+Theorem dqm_gateway_mutex_create : forall ns alls nbrs progs sched h t,
+  progs_ok ns progs -> nbrs_ok ns nbrs ->
+  let s := dm_run (dm_init ns alls nbrs (hints_create ns) progs) sched in
+  q_lock (getq s h) = Some t <-> in_crit s t h.
+Proof. exact DqMicroProofs.dqm_gateway_mutex_create. Qed.
+Print Assumptions dqm_gateway_mutex_create.
+
+Theorem dqm_push_assert_holds : forall ns alls nbrs hn progs sched k,
+  progs_ok ns progs -> alls_cover ns alls -> nbrs_ok ns nbrs -> hints_lc_ok ns hn ->
+  In k (dm_tasks (dm_run (dm_init ns alls nbrs hn progs) sched)) -> k_pc k <> PCrash 0.
+Proof. exact DqMicroProofs.dqm_push_assert_holds. Qed.
+Print Assumptions dqm_push_assert_holds.
+
+Theorem dqm_no_crash : forall ns alls nbrs progs sched k w,
+  progs_ok ns progs -> alls_cover ns alls -> nbrs_ok ns nbrs ->
+  In k (dm_tasks (dm_run (dm_init ns alls nbrs (hints_create ns) progs) sched)) -> k_pc k <> PCrash w.
+Proof. exact DqMicroProofs.dqm_no_crash. Qed.
+Print Assumptions dqm_no_crash.
 End DqM.
